@@ -275,7 +275,9 @@ class C19(Check):
             "os.open/fcntl.flock/os.close, virtual monotonic+sleep: ALL schedules with <=2 preemptions (quick) / <=3 "
             "(thorough), roles {plain, hog (never releases until the others gave up -> timeout path), re-acquire}; "
             "(b) 8 OS processes x 150 rounds of acquire -> non-atomic counter increment + O_APPEND enter/exit log -> "
-            "release with random SIGKILLs; (c) 2-3 S3LockProvider contenders on the S3 double at request granularity + "
+            "release with random SIGKILLs; (b2) fork() scenarios - a used instance inherited by a child that then holds the "
+            "lock, a HELD instance inherited by a child that tries to acquire through it / exits normally, the lock file "
+            "re-created while free - each claim cross-checked with a raw flock probe; (c) 2-3 S3LockProvider contenders on the S3 double at request granularity + "
             "clock actor (lease expiry) + heartbeat actor: ALL schedules with <=2 preemptions for 2 contenders, "
             "<=2 (budgeted) for 3 contenders, PCT/random beyond. non-trivial = execution with a failed attempt / "
             "takeover / timeout; distinct = gate-level trace")
@@ -284,7 +286,7 @@ class C19(Check):
         "the polling S3 provider is documented best-effort and outside the property",
         "cross-host flock (NFS) is out of reach",
     ]
-    require = {"local_executions": 100, "s3_executions": 100, "timeouts_observed": 5, "takeovers": 10,
+    require = {"fork_scenarios": 4, "local_executions": 100, "s3_executions": 100, "timeouts_observed": 5, "takeovers": 10,
                "stress_sections": 200}
     worker_timeout_s = {"quick": 1500, "thorough": 7200}
 
@@ -300,6 +302,8 @@ class C19(Check):
             for sh in range(nsh):
                 yield {"part": "local", "roles": roles, "k": 1 if q else 2, "shard": sh, "nshards": nsh,
                        "reacquire": False, "max_runs": 300 if q else 1500}
+        for i in range(2 if q else 8):
+            yield {"part": "fork", "rep": i}
         for i in range(2 if q else 6):
             yield {"part": "procs", "nproc": 8, "rounds": 150 if q else 400, "seed": seed * 100 + i}
         for cfg in ({"n": 2, "clock_steps": 1, "hb_steps": 0}, {"n": 2, "clock_steps": 1, "hb_steps": 1},
@@ -322,6 +326,8 @@ class C19(Check):
         part = case["part"]
         if part == "procs":
             return self._procs(case, res)
+        if part == "fork":
+            return self._fork(case, res)
         if part == "local":
             with Scratch("c19") as d:
                 n = {"i": 0}
@@ -370,6 +376,32 @@ class C19(Check):
                         "trace_tail": wit["trace"][-20:]})
 
     # ---- (b) real processes -------------------------------------------------------------
+    def _fork(self, case: Any, res: CaseResult) -> None:
+        """fork() scenarios: lock instances inherited by a child (warm; held), the lock file re-created while free.
+        Every claim is cross-checked against a raw flock probe of the kernel state (vf/procs/forker.py)."""
+        import json as _json
+        with Scratch("c19f") as d:
+            try:
+                p = subprocess.run([sys.executable, "-W", "ignore", "-m", "vf.procs.forker", str(d), "filelock"], cwd=str(VERIF),
+                                   env=dict(os.environ, PYTHONHASHSEED="0"), capture_output=True, timeout=120)
+            except subprocess.TimeoutExpired:
+                res.inconclusive.append("fork scenarios: watchdog (120 s) fired")
+                return
+            lines = [l for l in p.stdout.decode(errors="replace").splitlines() if l.startswith("{")]
+            if p.returncode != 0 or len(lines) < 4:
+                res.violation("fork:scenario-crashed", f"fork scenario driver ended rc={p.returncode} after {len(lines)} scenarios: "
+                              f"{p.stderr.decode(errors='replace')[-300:]}", {"case": case})
+                return
+            for l in lines:
+                o = _json.loads(l)
+                res.evals += 1
+                res.count("fork_scenarios")
+                res.key(["fork", o["scenario"]])
+                for sig, msg in o["violations"]:
+                    res.violation("local:" + sig, f"{o['scenario']}: {msg}", {"case": case, "observations": o["observations"]})
+                if not o["violations"] and len(res.samples) < 1:
+                    res.sample({"part": "fork", "scenario": o["scenario"], "observations": o["observations"]})
+
     def _procs(self, case: Any, res: CaseResult) -> None:
         rng = random.Random(case["seed"])
         with Scratch("c19p") as d:
